@@ -84,6 +84,25 @@ def build() -> dict:
         text: str = "dflt"
         nums: list[int] = dataclasses.field(default_factory=list)
 
+    # two compiled messages with the same layout, the first with (do-nothing) per-field rules, the second without:
+    # whatever the compiler keeps per layout must not leak from one message type to the other
+    @vp_compile
+    class FxRuled(VariablePayload):
+        names = ["n", "label"]
+        format_list = ["I", "varlenH"]
+
+        def fix_pack_label(self, value: bytes) -> bytes:
+            return value
+
+        @classmethod
+        def fix_unpack_label(cls, value: bytes) -> bytes:
+            return value
+
+    @vp_compile
+    class FxTwin(VariablePayload):
+        names = ["n", "label"]
+        format_list = ["I", "varlenH"]
+
     def make_probe(name: str, entry: object, nargs: int) -> type:
         """
         A one-field old-style Serializable that hands its arguments to the packer ``name`` the way every
@@ -118,4 +137,4 @@ def build() -> dict:
                     {"format_list": ["H", inner, [inner], "B"], "names": ["pre", "one", "many", "post"]})
 
     return {"FxInner": FxInner, "FxData": FxData, "FxBaseA": FxBaseA, "FxDerivA": FxDerivA, "FxBaseB": FxBaseB,
-            "FxDerivB": FxDerivB, "FxDeriv2B": FxDeriv2B, "FxPlain": FxPlain, "make_probe": make_probe, "make_container": make_container}
+            "FxDerivB": FxDerivB, "FxDeriv2B": FxDeriv2B, "FxPlain": FxPlain, "FxRuled": FxRuled, "FxTwin": FxTwin, "make_probe": make_probe, "make_container": make_container}
